@@ -570,6 +570,11 @@ func runTxn(c *corr.Ctx) error {
 	for i := 0; i < n && hungCases < 4; i++ {
 		c.Emit(execTxn(c, genTxn(c.Rng, c.Prop)))
 	}
+	// conflict-history pruning around a live reader
+	for i, m := 0, c.Scale(40, 1500); i < m && hungCases < 4; i++ {
+		c.Count("history_prune_scenarios")
+		c.Emit(execTxn(c, genHistoryPrune(c.Rng)))
+	}
 	// apply failures in the commit worker (closed WAL), single and batched commits
 	for i, m := 0, c.Scale(30, 800); i < m && hungCases < 4; i++ {
 		c.Count("apply_failure_scenarios")
@@ -591,5 +596,66 @@ func staleReaderScenarios() []txnDesc {
 	b := []txnOp{o("begin", 0, 0, ""), o("get", 0, 0, ""), o("begin", 1, 0, ""), o("set", 1, 0, "v1"), o("commit", 1, 0, ""),
 		o("begin", 2, 0, ""), o("set", 2, 1, "x"), o("commit", 2, 0, ""), o("begin", 3, 0, ""), o("set", 3, 2, "y"), o("commit", 3, 0, ""),
 		o("set", 0, 0, "v0"), o("commit", 0, 0, "")}
-	return []txnDesc{{Cfg: cfg, Ops: append(a, dumps...)}, {Cfg: cfg, Ops: append(b, dumps...)}}
+	// a key committed twice (A, B) around the begin of reader 1, while an older transaction 3 keeps A in
+	// the conflict history at B's commit; 3 ends, an unrelated commit prunes A but must keep B's intent:
+	// the reader's commit on that key is a conflict (intentTable / committedTxns bookkeeping)
+	p := []txnOp{o("begin", 3, 0, ""),
+		o("begin", 0, 0, ""), o("set", 0, 0, "vA"), o("commit", 0, 0, ""),
+		o("begin", 1, 0, ""), o("get", 1, 0, ""),
+		o("begin", 0, 0, ""), o("set", 0, 0, "vB"), o("commit", 0, 0, ""),
+		o("discard", 3, 0, ""),
+		o("begin", 2, 0, ""), o("set", 2, 1, "vC"), o("commit", 2, 0, ""),
+		o("set", 1, 0, "vR"), o("commit", 1, 0, "")}
+	return []txnDesc{{Cfg: cfg, Ops: append(a, dumps...)}, {Cfg: cfg, Ops: append(b, dumps...)}, {Cfg: cfg, Ops: append(p, dumps...)}}
+}
+
+// genHistoryPrune: random variants of the scenario above (which keys, how many overwrites and
+// unrelated commits, whether the old transaction ends before the pruning commit).
+func genHistoryPrune(r *rand.Rand) txnDesc {
+	d := txnDesc{Cfg: txnCfg{Detect: true, MaxCount: 64, MaxSize: 1 << 20, VThr: 1024}}
+	o := func(k string, id, key int, v string) {
+		d.Ops = append(d.Ops, txnOp{Kind: k, ID: id, Update: true, Key: key, Val: v})
+	}
+	valc := 0
+	commit := func(key int) {
+		valc++
+		o("begin", 0, 0, "")
+		o("set", 0, key, fmt.Sprintf("h%d", valc))
+		o("commit", 0, 0, "")
+	}
+	k := r.Intn(2)
+	old := r.Intn(4) != 0
+	if old {
+		o("begin", 3, 0, "")
+	}
+	for i, m := 0, 1+r.Intn(2); i < m; i++ {
+		commit(k)
+	}
+	o("begin", 1, 0, "")
+	o("get", 1, k, "")
+	if r.Intn(3) == 0 {
+		o("get", 1, 1-k, "")
+	}
+	for i, m := 0, 1+r.Intn(2); i < m; i++ {
+		if r.Intn(4) == 0 {
+			commit(2 + r.Intn(2))
+		} else {
+			commit(k)
+		}
+	}
+	if old && r.Intn(5) != 0 {
+		o("discard", 3, 0, "")
+	}
+	for i, m := 0, 1+r.Intn(3); i < m; i++ {
+		commit(2 + r.Intn(2)) // unrelated commits: their cleanup prunes the history
+	}
+	o("set", 1, k, "hR")
+	o("commit", 1, 0, "")
+	if old {
+		o("discard", 3, 0, "")
+	}
+	for key := range txnKeys {
+		d.Ops = append(d.Ops, txnOp{Kind: "dump", Key: key})
+	}
+	return d
 }
